@@ -550,6 +550,51 @@ func TestC16(t *testing.T) {
 	}
 	cliBudget := stats.Scale(12, 400)
 	bigBudget := stats.Scale(2, 40)
+	// enumerated: prime pairs whose half-difference b = (p-q)/2 and mid-point a = (p+q)/2 have extreme machine words
+	// (low words all zero, all ones, a single bit): whatever the search looks at first in b*b = a*a - N - a low word, a
+	// residue - such keys are found in the first round, and must be reported
+	{
+		k := 0
+		for _, pb := range []int{256, 512} {
+			for _, s := range []uint{31, 32, 33, 63, 64, 65, 96, 128} {
+				for pat := 0; pat < 3; pat++ {
+					k++
+					if !stats.Mine(k) {
+						continue
+					}
+					q0 := new(big.Int).Lsh(big.NewInt(1), uint(pb-1))
+					q0.Add(q0, new(big.Int).Lsh(big.NewInt(int64(7*k+1)), uint(pb/2)))
+					q := nextPrime(q0)
+					var p *big.Int
+					for m := int64(1); m < 6000 && p == nil; m++ {
+						b := new(big.Int).Lsh(big.NewInt(m), s) // low words zero
+						switch pat {
+						case 1:
+							b.Sub(b, big.NewInt(1)) // low words all ones
+						case 2:
+							b.Add(b, big.NewInt(1)) // a single low bit
+						}
+						c := new(big.Int).Add(q, new(big.Int).Lsh(b, 1))
+						if c.ProbablyPrime(2) {
+							p = c
+						}
+					}
+					if p == nil {
+						continue
+					}
+					base := co.Certs[bases[k%len(bases)]]
+					n := new(big.Int).Mul(p, q)
+					if der, ok := build(base, n, 65537); ok {
+						c := c16Case{DER: der, Base: base.Name, N: n.String(), E: 65537, P: p.String(), Q: q.String(), How: "aligned-difference"}
+						judge(t.Fatalf, c, nil)
+						one := 1
+						c.Rounds = &one
+						judge(t.Fatalf, c, nil)
+					}
+				}
+			}
+		}
+	}
 	rapidRun(t, "fermat", perShard(stats.Scale(6000, 150000)), func(rt *rapid.T) {
 		base := co.Certs[bases[rapid.IntRange(0, len(bases)-1).Draw(rt, "base")]]
 		var p, q *big.Int
